@@ -71,16 +71,26 @@ def simplex(dim, lmin, lmax):
     return out
 
 
+def flags_of(cfg):
+    """boundary flag per dimension (uniform configurations carry only the aggregate cfg['bd'])"""
+    return [bool(x) for x in cfg["flags"]] if "flags" in cfg else [bool(cfg["bd"])] * cfg["dim"]
+
+
+def mk_flag(v, typ):
+    """the same truth value as a literal bool, a numpy bool or an int (all are accepted as `boundary=`)"""
+    return np.bool_(v) if typ == "npbool" else (int(v) if typ == "int" else bool(v))
+
+
 def level_pts_1d(a, b, l, bd):
     n = 2 ** l
     idx = range(0, n + 1) if bd else range(1, n)
     return [float(F(a) + (F(b) - F(a)) * i / n) for i in idx]
 
 
-def sparse_grid(a, b, dim, lmin, lmax, bd):
+def sparse_grid(a, b, dim, lmin, lmax, fl):
     pts = set()
     for k in simplex(dim, lmin, lmax):
-        pts.update(itertools.product(*[level_pts_1d(a[d], b[d], k[d], bd) for d in range(dim)]))
+        pts.update(itertools.product(*[level_pts_1d(a[d], b[d], k[d], fl[d]) for d in range(dim)]))
     return pts
 
 
@@ -108,7 +118,7 @@ def make_function(dim, comps, box=None):
     """comps: list of components, each ('tab', dict point->Fraction, label) or ('hat', a, b, k, i); a Function subclass
     with output_length len(comps) evaluating them exactly (dyadic values -> exact floats).  The function RECORDS every
     point at which it is evaluated (`evaluated`).  A table labelled 'singular' is infinite wherever a coordinate lies on
-    the boundary of `box = (a, b)` (the kind of function boundary=False exists for)."""
+    the excluded boundary of `box = (a, b, flags)` (the kind of function boundary=False exists for)."""
     from sparseSpACE.Function import Function
 
     class TabFunction(Function):
@@ -123,7 +133,8 @@ def make_function(dim, comps, box=None):
         def eval(self, coordinates):
             p = tuple(float(c) for c in coordinates)
             self.evaluated.add(p)
-            on_bd = box is not None and any(p[d] == box[0][d] or p[d] == box[1][d] for d in range(dim))
+            # on the EXCLUDED boundary: a coordinate on an end of a dimension without boundary points
+            on_bd = box is not None and any((not box[2][d]) and (p[d] == box[0][d] or p[d] == box[1][d]) for d in range(dim))
             out = []
             for c in self.comps:
                 if c[0] == "tab":
@@ -154,13 +165,24 @@ def comp_value(dim, c, p):
 def build(cfg, f, interp_op, integrator=None):
     from sparseSpACE.StandardCombi import StandardCombi
     from sparseSpACE.GridOperation import Integration, Interpolation
-    from sparseSpACE.Grid import TrapezoidalGrid
+    from sparseSpACE.Grid import TrapezoidalGrid, TrapezoidalGrid1D, MixedGrid
     from sparseSpACE.Utils import print_levels, log_levels
     a = np.array(cfg["a"], dtype=float)
     b = np.array(cfg["b"], dtype=float)
+    fl = flags_of(cfg)
+    typ = cfg.get("flagtype", "bool")
+    via = cfg.get("via", "trapezoidal")
     # integrator=None: IntegratorArbitraryGridScalarProduct (points x weights); 'old': the index-based
     # IntegratorArbitraryGrid (getWeight / getCoordinate per index vector)
-    grid = TrapezoidalGrid(a, b, boundary=cfg["bd"], integrator=integrator)
+    if via == "mixed":             # one 1-D grid per dimension, each with its own flag
+        grid = MixedGrid(a, b, grids=[TrapezoidalGrid1D(a=a[d], b=b[d], boundary=mk_flag(fl[d], typ)) for d in range(cfg["dim"])],
+                         integrator=integrator)
+    elif via == "set_boundaries":  # flags changed after construction (the aggregate flag all(flags) stays what it was)
+        grid = TrapezoidalGrid(a, b, boundary=mk_flag(all(fl), typ), integrator=integrator)
+        grid.set_boundaries([mk_flag(x, typ) for x in fl])
+    else:
+        assert all(x == fl[0] for x in fl)
+        grid = TrapezoidalGrid(a, b, boundary=mk_flag(fl[0], typ), integrator=integrator)
     cls = Interpolation if interp_op else Integration
     op = cls(f, grid=grid, dim=cfg["dim"])
     sc = StandardCombi(a, b, operation=op, print_level=print_levels.NONE, log_level=log_levels.NONE)
@@ -210,7 +232,8 @@ def gen_cfg0(ctx, thorough, far=False):
         b = [x + r.choice([F(1), F(1, 2), F(2)]) for x in a]
         if dim == 2:  # one axis far is enough
             a[1], b[1] = F(0), F(1)
-        return {"dim": dim, "lmin": lmin, "lmax": lmax, "bd": False, "a": [float(x) for x in a], "b": [float(x) for x in b]}
+        return {"dim": dim, "lmin": lmin, "lmax": lmax, "bd": False, "a": [float(x) for x in a], "b": [float(x) for x in b],
+                "flagtype": r.choice(["bool", "npbool", "int"])}
     dim = r.choice([1, 2, 2, 2, 3, 3, 4] if not thorough else [1, 2, 2, 3, 3, 3, 4, 4])
     lmin = r.choice([1, 1, 2, 2, 3])
     if dim == 1:
@@ -230,6 +253,21 @@ def gen_cfg0(ctx, thorough, far=False):
     a = [r.choice(BOX_STARTS) for _ in range(dim)]
     b = [a[d] + r.choice(BOX_LENGTHS) for d in range(dim)]
     cfg = {"dim": dim, "lmin": lmin, "lmax": lmin + span, "bd": bd, "a": [float(x) for x in a], "b": [float(x) for x in b]}
+    # option coverage of the boundary flag: literal bool / numpy.bool_ / int; one flag for all dimensions
+    # (TrapezoidalGrid) or one per dimension (MixedGrid of TrapezoidalGrid1D's, or set_boundaries), possibly mixed
+    cfg["flagtype"] = r.choice(["bool", "bool", "npbool", "int"])
+    x = r.random()
+    if dim >= 2 and x < 0.3:
+        fl = [r.random() < 0.5 for _ in range(dim)]
+        k = r.randrange(dim)
+        fl[k] = True
+        fl[(k + 1 + r.randrange(dim - 1)) % dim] = False
+        cfg["flags"] = fl
+        cfg["bd"] = False
+        cfg["via"] = r.choice(["mixed", "mixed", "set_boundaries"])
+    elif x < 0.45:
+        cfg["flags"] = [bd] * dim
+        cfg["via"] = r.choice(["mixed", "set_boundaries"])
     if r.random() < 0.4:   # same level difference with another lmin first, sometimes also a different difference
         warm = [[lmin + 1, lmin + 1 + span]] if (lmin == 1 or r.random() < 0.5) else [[lmin - 1, lmin - 1 + span]]
         if r.random() < 0.3:
@@ -250,6 +288,8 @@ def gen_components(ctx, cfg, sg_sorted, kinds=None):
     """one bundle = 1..3 scalar components (output length 1-3)"""
     r = ctx.rng
     dim, lmin, lmax, bd, a, b = cfg["dim"], cfg["lmin"], cfg["lmax"], cfg["bd"], cfg["a"], cfg["b"]
+    fl = flags_of(cfg)
+    off_dims = [d for d in range(dim) if not fl[d]]
     m = r.choice([1, 1, 2, 3])
     comps = []
     I = simplex(dim, lmin, lmax)
@@ -260,10 +300,10 @@ def gen_components(ctx, cfg, sg_sorted, kinds=None):
             comps.append(("tab", {p: rand_dyadic(r) for p in sg_sorted}, "singular"))
         elif kind == "table":      # arbitrary values on every sparse-grid point (and on the domain boundary)
             t = {p: rand_dyadic(r) for p in sg_sorted}
-            if not bd:           # values on the boundary must be ignored (zero-boundary interpolant)
+            if off_dims:         # values on the excluded boundary must be ignored (zero-boundary interpolant)
                 for p in r.sample(sg_sorted, min(len(sg_sorted), 6)):
                     q = list(p)
-                    d = r.randrange(dim)
+                    d = r.choice(off_dims)
                     q[d] = r.choice([a[d], b[d]])
                     t[tuple(q)] = rand_dyadic(r)
             comps.append(("tab", t, "table"))
@@ -280,7 +320,7 @@ def gen_components(ctx, cfg, sg_sorted, kinds=None):
             i = []
             for d in range(dim):
                 n = 2 ** k[d]
-                i.append(r.randint(0, n) if bd else r.randint(1, n - 1))
+                i.append(r.randint(0, n) if fl[d] else r.randint(1, n - 1))
             comps.append(("hat", a, b, list(k), i))
     return comps
 
@@ -325,8 +365,10 @@ class Runner:
     def structure(self, cfg, case):
         ctx, drv = self.ctx, self.drv
         dim, lmin, lmax, bd, a, b = cfg["dim"], cfg["lmin"], cfg["lmax"], cfg["bd"], cfg["a"], cfg["b"]
-        tags = {"dim": dim, "lmin": lmin, "span": lmax - lmin, "boundary": bd}
-        r = drv.ask("cfg %d %d %d %d %s %s" % (dim, lmin, lmax, 1 if bd else 0, fmt_pt(a), fmt_pt(b)))
+        fl = flags_of(cfg)
+        tags = {"dim": dim, "lmin": lmin, "span": lmax - lmin, "boundary": bd, "mixed_flags": len(set(fl)) > 1,
+                "flagtype": cfg.get("flagtype", "bool"), "via": cfg.get("via", "trapezoidal")}
+        r = drv.ask("cfg %d %d %d %s %s %s" % (dim, lmin, lmax, ",".join("1" if x else "0" for x in fl), fmt_pt(a), fmt_pt(b)))
         if not self.corr("cfg", case, "ok", r):
             return None
         f0 = make_function(dim, [("tab", {}, "zero")])
@@ -387,7 +429,7 @@ class Runner:
             union.update(pts)
             ctx.count("component_grids")
         # oracle: union = sparse grid of the index set; coefficient sums 1
-        sg = sparse_grid(a, b, dim, lmin, lmax, bd)
+        sg = sparse_grid(a, b, dim, lmin, lmax, fl)
         if union != sg:
             self.viol("union-is-sparse-grid", tags, case, {"missing": [list(p) for p in sorted(sg - union)[:5]],
                                                           "extra": [list(p) for p in sorted(union - sg)[:5]]})
@@ -429,7 +471,9 @@ class Runner:
     def bundle(self, cfg, case, info, comps, xs, coords, far):
         ctx, drv = self.ctx, self.drv
         dim, lmin, lmax, bd, a, b = cfg["dim"], cfg["lmin"], cfg["lmax"], cfg["bd"], cfg["a"], cfg["b"]
-        tags = {"dim": dim, "lmin": lmin, "span": lmax - lmin, "boundary": bd}
+        fl = flags_of(cfg)
+        tags = {"dim": dim, "lmin": lmin, "span": lmax - lmin, "boundary": bd, "mixed_flags": len(set(fl)) > 1,
+                "flagtype": cfg.get("flagtype", "bool"), "via": cfg.get("via", "trapezoidal")}
         us = info["union"]
         interp_op = ctx.rng.random() < 0.5 if "interp_op" not in case else case["interp_op"]
         lv_one = info["scheme"][ctx.rng.randrange(len(info["scheme"]))][0] if "lv_one" not in case else tuple(case["lv_one"])
@@ -440,7 +484,7 @@ class Runner:
         case = dict(case, comps=[comp_to_case(c) for c in comps], xs=[list(p) for p in xs], coords=coords, interp_op=interp_op,
                     lv_one=list(lv_one), integrator=integrator)
         tags = dict(tags, integrator=integrator or "scalar-product")
-        f = make_function(dim, comps, (a, b))
+        f = make_function(dim, comps, (a, b, fl))
         sc, grid, op = build(cfg, f, interp_op, integrator)
         try:
             with quiet():
@@ -459,13 +503,13 @@ class Runner:
         usset = set(us)
         off = sorted(f.evaluated - usset)
         if off:
-            on_boundary = [p for p in off if any(p[d] == a[d] or p[d] == b[d] for d in range(dim))]
+            on_boundary = [p for p in off if any((not fl[d]) and (p[d] == a[d] or p[d] == b[d]) for d in range(dim))]
             self.viol("evaluated-outside-sparse-grid", dict(tags, on_boundary=bool(on_boundary)), case,
                       {"n_points": len(off), "first": [list(p) for p in off[:3]]})
         ctx.count("function_evaluations", len(f.evaluated))
         # false-boundary classification (independent of the model): an interior sparse-grid point that
         # the boundary test of points_not_zero counts as lying on the boundary (cannot happen after the repair)
-        false_bd = (not bd) and any(near_end(p[d], a[d], a[d], b[d]) or near_end(p[d], b[d], a[d], b[d]) for p in us for d in range(dim))
+        false_bd = any((not fl[d]) and (near_end(p[d], a[d], a[d], b[d]) or near_end(p[d], b[d], a[d], b[d])) for p in us for d in range(dim))
         tags2 = dict(tags, false_boundary=bool(false_bd))
         for j, c in enumerate(comps):
             # ---- correspondence with the model
@@ -719,12 +763,13 @@ def gen_nondyadic(ctx):
     span = r.randint(0, 3 if dim <= 2 else 2)
     a = [round(r.uniform(-3, 3), 3) for _ in range(dim)]
     b = [a[d] + round(r.uniform(0.1, 4), 3) for d in range(dim)]
-    return {"dim": dim, "lmin": lmin, "lmax": lmin + span, "bd": r.random() < 0.5, "a": a, "b": b}
+    return {"dim": dim, "lmin": lmin, "lmax": lmin + span, "bd": r.random() < 0.5, "a": a, "b": b,
+            "flagtype": r.choice(["bool", "npbool", "int"])}
 
 
 def run(ctx):
     thorough = ctx.tier == "thorough"
-    ctx.rule = ("StandardCombi on TrapezoidalGrid (boundary on/off), Integration/Interpolation; dim 1-4, lmin 1-3, lmax-lmin 0-4, "
+    ctx.rule = ("StandardCombi on TrapezoidalGrid / MixedGrid of TrapezoidalGrid1D / set_boundaries (boundary on/off, also mixed per dimension; flag given as bool, numpy.bool_ or int), Integration/Interpolation; dim 1-4, lmin 1-3, lmax-lmin 0-4, "
                 "dyadic boxes, function bundles of output length 1-3 whose components are random dyadic tables on the sparse grid, "
                 "sparse tables, nodal unit functions and tensor hats of a level in the index set; a few far-from-origin boxes with "
                 "boundary off (formerly the np.isclose false-boundary class; must satisfy every clause now); model and implementation compared on scheme, points, weights, counts, "
@@ -749,7 +794,9 @@ def run(ctx):
         ctx.count("dim_%d" % cfg["dim"])
         ctx.count("lmin_%d" % cfg["lmin"])
         ctx.count("span_%d" % (cfg["lmax"] - cfg["lmin"]))
-        ctx.count("boundary_%s" % ("on" if cfg["bd"] else "off"))
+        ctx.count("boundary_%s" % ("mixed" if len(set(flags_of(cfg))) > 1 else ("on" if cfg["bd"] else "off")))
+        ctx.count("flagtype_" + cfg.get("flagtype", "bool"))
+        ctx.count("via_" + cfg.get("via", "trapezoidal"))
         if far:
             ctx.count("far_box")
         ctx.case(case, nontrivial=(cfg["dim"] >= 2 or cfg["lmax"] > cfg["lmin"]), sample=case if k in (nfar, nfar + 1) else None)
